@@ -36,13 +36,19 @@ CONSTRAINT Bound
 
 
 def cfg(name, mss=2, mb="MB20", mw=2, drops=1, dups=0, rtos=1, close="CloseNone", sim="FALSE", inj=0, old="FALSE",
-        hist=0, simulate=False):
+        hist=0, simulate=False, live=False):
     d = workdir("cfg")
     p = os.path.join(d, name + ".cfg")
-    open(p, "w").write(CFG_TMPL.format(
+    tmpl = CFG_TMPL
+    if live:
+        # "eventually": every behaviour of the fair specification comes to rest (no cycle of protocol steps);
+        # no state constraint, no VIEW (both are unsound for liveness)
+        tmpl = (CFG_TMPL.replace("SPECIFICATION Spec", "SPECIFICATION FairSpec").replace("CONSTRAINT Bound\n", "")
+                .replace("INVARIANTS PrefixInv WireInv WindowInv NoResetInv SyncInv QuiescentInv {extra_inv}", "INVARIANTS QuiescentInv"))
+    open(p, "w").write(tmpl.format(
         mss5=mss * 5, mss=mss, mb=mb, mw=mw, drops=drops, dups=dups, rtos=rtos, close=close, sim=sim, inj=inj, old=old, hist=hist,
-        view="" if simulate else "VIEW View", extra_inv="EmitSchedule" if simulate else "",
-        prop="" if simulate else "PROPERTY EdgeProp"))
+        view="" if (simulate or live) else "VIEW View", extra_inv="EmitSchedule" if simulate else "",
+        prop="PROPERTY Termination" if live else ("" if simulate else "PROPERTY EdgeProp")))
     return p
 
 
@@ -55,6 +61,7 @@ MODEL_QUICK = [
     ("simopen", dict(mss=2, mb="MB00", mw=1, drops=1, dups=0, rtos=1, close="CloseBoth", sim="TRUE"), {"C03"}),
     ("oldsyn", dict(mss=2, mb="MB10", mw=1, drops=1, dups=0, rtos=1, old="TRUE"), {"C03"}),
     ("inject-1", dict(mss=2, mb="MB10", mw=1, drops=0, dups=0, rtos=0, inj=1), {"C17"}),
+    ("live-close-min", dict(mss=2, mb="MB00", mw=1, drops=0, dups=0, rtos=1, close="CloseBoth", live=True), {"C03"}),
 ]
 MODEL_THOROUGH = MODEL_QUICK + [
     ("data-above-window", dict(mss=2, mb="MB42", mw=4, drops=0, dups=0, rtos=0), {"C01", "C12"}),
@@ -64,6 +71,9 @@ MODEL_THOROUGH = MODEL_QUICK + [
     ("simopen-data", dict(mss=2, mb="MB10", mw=1, drops=1, dups=1, rtos=1, close="CloseNone", sim="TRUE"), {"C03", "C01"}),
     ("inject-close", dict(mss=2, mb="MB00", mw=1, drops=0, dups=0, rtos=0, inj=1, close="CloseBoth"), {"C17"}),
     ("inject-2", dict(mss=2, mb="MB00", mw=1, drops=0, dups=0, rtos=0, inj=2), {"C17"}),
+    ("live-close", dict(mss=2, mb="MB10", mw=1, drops=1, dups=0, rtos=1, close="CloseBoth", live=True), {"C03", "C01"}),
+    ("live-data", dict(mss=2, mb="MB20", mw=2, drops=1, dups=1, rtos=1, live=True), {"C01"}),
+    ("live-simopen", dict(mss=2, mb="MB00", mw=1, drops=1, dups=0, rtos=1, close="CloseBoth", sim="TRUE", live=True), {"C03"}),
 ]
 
 # simulated behaviours for the replay leg: (name, kwargs, num, depth)
